@@ -128,7 +128,7 @@ func (d *c10Cmp) replayFresh(log []ev.Event, prefixLen int) (accepted bool, why 
 }
 
 func c10Outcome(r *rules.RulesEventReceiver, log []ev.Event, prefixLen int) (accepted bool, why interface{}, ok bool) {
-	idx, p := ev.Replay(r, log)
+	idx, p := replayAuto(r, log)
 	if idx < 0 {
 		return true, nil, true
 	}
